@@ -486,7 +486,7 @@ func checkLevels(c *fw.Ctx) {
 		c.Check(len(fw.CallsTo(fn, false, fw.NameIs("(*gmsl.PowerLevelContent).Defaults"))) == 1, rule, "no power-levels event: remaining levels take the defaults", c.P.Pos(fn.Pos()), "", "Defaults() is not applied")
 	}
 	// who may read user levels directly: only userPowerLevel (and the old/new comparison helpers)
-	reach := fw.ReachableFuncs(c.P.VTA(), []*ssa.Function{c.P.Func("(*allowerContext).allowed")}, func(f *ssa.Function) bool { return c.P.IsRepoFunc(f) })
+	reach := fw.ReachableFuncs(c.Graph(), []*ssa.Function{c.P.Func("(*allowerContext).allowed")}, func(f *ssa.Function) bool { return c.P.IsRepoFunc(f) })
 	n := 0
 	for f := range reach {
 		for _, call := range fw.CallsTo(f, false, fw.NameIs("(*gmsl.PowerLevelContent).UserLevel")) {
